@@ -205,6 +205,11 @@ def concat(iters, axis=0):
 
         count += item.size
 
+    num_col = max([linear.shape[1] for linear in linear_each])
+    for linear in linear_each:
+        if linear.shape[1] < num_col:
+            linear.resize(linear.shape[0], num_col)
+
     ndim = max([i.ndim for i in idx_each])
     idx_each = [i.reshape([1] * ndim) if i.shape == () else i
                 for i in idx_each]
